@@ -48,8 +48,9 @@ class TableAll(Monitor):
     over the players who did not fold, with the cards they held when the showdown began.  Unlike the twin it does
     not use the engine's own can-win test, so it also sees a defect that twin and original share."""
 
-    def __init__(self, cfg):
+    def __init__(self, cfg, prefix='C12'):
         self.cfg = cfg
+        self.prefix = prefix
         self.init = False
 
     def start(self, st):
@@ -116,21 +117,21 @@ class TableAll(Monitor):
         out = sorted(set(self.mucked + self.killed))
         for i in out:
             if award[i] > 0:
-                raise Violation('C12.lost', f'player {i} was {"mucked" if i in self.mucked else "killed"} by the engine but with '
+                raise Violation(self.prefix + '.lost', f'player {i} was {"mucked" if i in self.mucked else "killed"} by the engine but with '
                                 f'every remaining player tabling his hand he wins {award[i]}: hands '
                                 f'{[(j, self.hands[j]) for j in range(n) if live[j]]} boards {boards} pot layers '
                                 f'{[(str(a), e) for a, e in layers]}', rule='lost')
         exact = self.cfg['divmod'] == 'exact'        # otherwise every sub-split may leave odd chips with the first winner
         if exact:
             if self.pushed != award:
-                raise Violation('C12.award', f'the engine pushed {[str(x) for x in self.pushed]}; every remaining player tabling '
+                raise Violation(self.prefix + '.award', f'the engine pushed {[str(x) for x in self.pushed]}; every remaining player tabling '
                                 f'his hand gives {[str(x) for x in award]}', rule='award')
         else:
             nb, nt, k = len(boards), len(types), sum(live)
             slack = len(layers) * ((nb - 1) + nb * (nt - 1) + nb * nt * (k - 1))
             for i in range(n):
                 if abs(self.pushed[i] - award[i]) > slack:
-                    raise Violation('C12.award', f'player {i} is pushed {self.pushed[i]}, every remaining player tabling his '
+                    raise Violation(self.prefix + '.award', f'player {i} is pushed {self.pushed[i]}, every remaining player tabling his '
                                     f'hand gives {award[i]} (allowed deviation {slack} odd chips)', rule='award')
 
 
